@@ -18,4 +18,156 @@ theorem reencode_rooted (keep : Acc) (sup : Bool) (t r : T) (hr : restrict keep 
   simp only [reencode, C01.encode, h, C01.splitOf]
   simp
 
+/-! ### re-encoding a tree that is not rooted: basal collapse, then suppression; what it does to the clades -/
+mutual
+theorem tsup_mask' : ∀ t : T, (T.sup t).mask = t.mask
+  | .node i x l s [] => by simp [T.sup, T.supL]
+  | .node i x l s (c :: cs) => by
+      have hl := tsupL_mask' (c :: cs)
+      simp only [T.sup, mask_node_cons]
+      rw [← hl]
+      generalize hks : T.supL (c :: cs) = ks
+      match ks, hks with
+      | [], h => simp [T.supL] at h
+      | [k], _ => simp [mask_withLen, T.maskL]
+      | k1 :: k2 :: r, _ => simp [T.mask]
+theorem tsupL_mask' : ∀ cs : List T, T.maskL (T.supL cs) = T.maskL cs
+  | [] => rfl
+  | c :: cs => by simp [T.supL, T.maskL, tsup_mask' c, tsupL_mask' cs]
+end
+
+mutual
+theorem tsup_masks : ∀ (t : T) (x : Nat), x ∈ (T.sup t).masksPost ↔ x ∈ t.masksPost
+  | .node i x l s [], y => by simp [T.sup, T.supL]
+  | .node i x l s (c :: cs), y => by
+      have hl := tsupL_masks (c :: cs) y
+      have hm := tsupL_mask' (c :: cs)
+      have hroot := tsup_mask' (.node i x l s (c :: cs))
+      simp only [T.sup] at hroot ⊢
+      generalize hks : T.supL (c :: cs) = ks at hl hm hroot
+      match ks, hks with
+      | [], h => simp [T.supL] at h
+      | [k], _ =>
+        simp only [masksPost_withLen, T.masksPost, List.mem_append, List.mem_singleton, mask_node_cons]
+        have hk1 : T.masksPostL [k] = k.masksPost := by simp [T.masksPostL]
+        have hk2 : T.maskL [k] = k.mask := by simp [T.maskL]
+        rw [hk1] at hl
+        rw [hk2] at hm
+        rw [← hl]
+        constructor
+        · intro h; exact Or.inl h
+        · rintro (h | h)
+          · exact h
+          · rw [h, ← hm]; exact mask_mem_masksPost k
+      | k1 :: k2 :: r, _ =>
+        simp only [T.masksPost, List.mem_append, List.mem_singleton, hl]
+        simp only [mask_node_cons] at hroot ⊢
+        rw [hm]
+theorem tsupL_masks : ∀ (cs : List T) (x : Nat), x ∈ T.masksPostL (T.supL cs) ↔ x ∈ T.masksPostL cs
+  | [], _ => Iff.rfl
+  | c :: cs, y => by simp only [T.supL, T.masksPostL, List.mem_append, tsup_masks c y, tsupL_masks cs y]
+end
+
+theorem supIf_masks (sup : Bool) (t : T) (x : Nat) : x ∈ (supIf sup t).masksPost ↔ x ∈ t.masksPost := by
+  cases sup <;> simp [supIf, tsup_masks]
+
+theorem supIf_mask (sup : Bool) (t : T) : (supIf sup t).mask = t.mask := by
+  cases sup <;> simp [supIf, tsup_mask']
+
+theorem len_node' (i x l s) (cs : List T) : (T.node i x l s cs).len = l := rfl
+
+theorem collapse_of_length_ne (t : T) (h : t.cs.length ≠ 2) : t.collapseBasal = t := by
+  obtain ⟨i, x, l, s, cs⟩ := t
+  match cs, h with
+  | [], _ => rfl
+  | [a], _ => rfl
+  | [a, b], h => simp [T.cs] at h
+  | a :: b :: c :: r, _ => rfl
+
+/-- collapsing the basal bifurcation keeps the tree's leafset and loses at most the clade of the dissolved child:
+    the leafset masks of the result are a sublist of the original ones -/
+theorem collapse_masks (t : T) : t.collapseBasal.mask = t.mask ∧ t.collapseBasal.masksPost.Sublist t.masksPost := by
+  obtain ⟨i, x, l, s, cs⟩ := t
+  match cs with
+  | [] => exact ⟨rfl, List.Sublist.refl _⟩
+  | [a] => exact ⟨rfl, List.Sublist.refl _⟩
+  | a :: b :: c :: r => exact ⟨rfl, List.Sublist.refl _⟩
+  | [a, b] =>
+    simp only [T.collapseBasal]
+    by_cases hb : b.cs.length ≥ 2
+    · simp only [hb, if_true]
+      obtain ⟨j, y, m, u, ds⟩ := b
+      simp only [T.cs, len_node'] at hb ⊢
+      generalize tryAdd a.len m = L
+      match ds, hb with
+      | d1 :: d2 :: dr, _ =>
+        refine ⟨?_, ?_⟩
+        · simp [T.mask, T.maskL, mask_withLen]
+        · simp only [T.masksPost, T.masksPostL, masksPost_withLen, mask_node_cons, List.append_nil, List.append_assoc]
+          have e : T.maskL (a.withLen L :: d1 :: d2 :: dr) = T.maskL [a, T.node j y m u (d1 :: d2 :: dr)] := by
+            simp [T.maskL, T.mask, mask_withLen]
+          rw [e]
+          apply List.Sublist.append (List.Sublist.refl _)
+          apply List.Sublist.append (List.Sublist.refl _)
+          apply List.Sublist.append (List.Sublist.refl _)
+          apply List.Sublist.append (List.Sublist.refl _)
+          exact List.Sublist.cons _ (List.Sublist.refl _)
+    · simp only [hb, if_false]
+      by_cases ha : a.cs.length ≥ 2
+      · simp only [ha, if_true]
+        obtain ⟨j, y, m, u, ds⟩ := a
+        simp only [T.cs, len_node'] at ha ⊢
+        generalize tryAdd b.len m = L
+        match ds, ha with
+        | d1 :: d2 :: dr, _ =>
+          have hne : (d1 :: d2 :: dr) ++ [b.withLen L] = d1 :: (d2 :: dr ++ [b.withLen L]) := rfl
+          refine ⟨?_, ?_⟩
+          · rw [hne, mask_node_cons, mask_node_cons]
+            have : ∀ (xs : List T) (z : T), T.maskL (xs ++ [z]) = T.maskL xs ||| z.mask := by
+              intro xs z; induction xs with
+              | nil => simp [T.maskL]
+              | cons q qs ih => simp [T.maskL, ih, Nat.or_assoc]
+            rw [← hne, this]
+            simp [T.maskL, T.mask, mask_withLen]
+          · have hpl : ∀ (xs : List T) (z : T), T.masksPostL (xs ++ [z]) = T.masksPostL xs ++ z.masksPost := by
+              intro xs z; induction xs with
+              | nil => simp [T.masksPostL]
+              | cons q qs ih => simp [T.masksPostL, ih]
+            have hml : ∀ (xs : List T) (z : T), T.maskL (xs ++ [z]) = T.maskL xs ||| z.mask := by
+              intro xs z; induction xs with
+              | nil => simp [T.maskL]
+              | cons q qs ih => simp [T.maskL, ih, Nat.or_assoc]
+            have hroot : (T.node i x l s ((d1 :: d2 :: dr) ++ [b.withLen L])).mask
+                = (T.node i x l s [T.node j y m u (d1 :: d2 :: dr), b]).mask := by
+              rw [hne, mask_node_cons, ← hne, hml]
+              simp [T.mask, T.maskL, mask_withLen]
+            simp only [T.masksPost, hroot, hpl, masksPost_withLen, T.masksPostL, List.append_nil, List.append_assoc]
+            apply List.Sublist.append (List.Sublist.refl _)
+            apply List.Sublist.append (List.Sublist.refl _)
+            apply List.Sublist.append (List.Sublist.refl _)
+            exact List.Sublist.cons _ (List.Sublist.refl _)
+      · simp only [ha, if_false]
+        constructor
+        · trivial
+        · exact List.Sublist.refl _
+
+theorem reencode_not_rooted (rooted : Option Bool) (hr : rooted ≠ some true) (sup : Bool) (r : T) :
+    (reencode rooted sup r).1 = supIf sup r.collapseBasal ∧
+    (reencode rooted sup r).2.map (·.1) = (supIf sup r.collapseBasal).masksPost := by
+  have hb : (rooted != some true) = true := by
+    cases rooted with
+    | none => rfl
+    | some b => cases b with
+      | true => exact absurd rfl hr
+      | false => rfl
+  have ht : C01.encodeTree rooted sup true r = supIf sup r.collapseBasal := by
+    unfold C01.encodeTree supIf
+    by_cases h2 : r.cs.length = 2
+    · simp [hb, h2]
+    · have := collapse_of_length_ne r h2
+      simp [hb, h2, this]
+  refine ⟨ht, ?_⟩
+  simp only [reencode, C01.encode, ht, List.map_map]
+  exact (List.map_congr_left (fun m _ => rfl)).trans (List.map_id _)
+
 end DendroModel.C08.Aux
